@@ -209,7 +209,7 @@ func (p *Program) runsInit(path string) bool {
 		return true
 	}
 	// everything that is not the standard library and not stubbed
-	if strings.Contains(path, ".") || strings.HasPrefix(path, "verif") {
+	if strings.Contains(path, ".") || strings.HasPrefix(path, "verif") || strings.HasPrefix(path, "vgen") {
 		switch {
 		case strings.HasPrefix(path, "github.com/CloudyKit"),
 			strings.HasPrefix(path, "golang.org/x/"),
